@@ -222,7 +222,7 @@ func WellFormed(w World, allowRepeatPositional bool) bool {
 		names := map[string]bool{}
 		keys := map[[2]interface{}]bool{}
 		for _, s := range ss {
-			if s.Type < 0 || s.Type >= NumTypes {
+			if s.Type < 0 || s.Type >= NumTypesAll {
 				return false
 			}
 			if form == FormPositional && (s.Name != "" || s.Sub != "") {
@@ -284,7 +284,7 @@ func WellFormed(w World, allowRepeatPositional bool) bool {
 				return false
 			}
 		case ArgNamed, ArgTyped:
-			if a.Label.Type < 0 || a.Label.Type >= IfaceBase {
+			if a.Label.Type < 0 || (a.Label.Type >= IfaceBase && a.Label.Type < TwinBase) || a.Label.Type >= NumTypesAll {
 				return false
 			}
 			if (a.Kind == ArgNamed) != (a.Label.Name != "") {
@@ -304,7 +304,7 @@ func WellFormed(w World, allowRepeatPositional bool) bool {
 				return false
 			}
 		case OpConvert:
-			if o.Type < 0 || o.Type >= NumTypes {
+			if o.Type < 0 || o.Type >= NumTypesAll {
 				return false
 			}
 		case OpCallRedef:
